@@ -180,6 +180,11 @@ theorem stepState_msg_state (env : Env B H) (c : Codec H) (nl : Nat) (m : Messag
   simp only [] at h
   repeat' (split at h)
   all_goals (try (simp at h; done))
+  · -- the empty `Headers` list
+    simp only [Sum.inl.injEq, Prod.mk.injEq, Res.msg.injEq] at h
+    obtain ⟨rfl, rfl, _⟩ := h
+    intro hne
+    exact absurd rfl hne
   · rename_i hm
     simp only [Sum.inl.injEq, Prod.mk.injEq, Res.msg.injEq] at h
     obtain ⟨rfl, rfl, _⟩ := h
@@ -322,7 +327,11 @@ theorem abl_expected (env : Env B H) (attach : Message B H → Option Nat) (m : 
   cases m with
   | plain t v raw => trivial
   | unknown t raw => trivial
-  | headers items => exact abl_batches attach _ _
+  | headers items =>
+    simp only [expected]
+    split
+    · trivial
+    · exact abl_batches attach _ _
   | archive t v raw att =>
     obtain ⟨_, _, _, _, ha⟩ := hwf
     apply abl_cons _ _ _ _ (abl_attEvents attach _ _)
